@@ -10,7 +10,22 @@ import (
 	"github.com/dominant-strategies/go-quai/core/types"
 	"github.com/dominant-strategies/go-quai/params"
 	"pgregory.net/rapid"
+
+	"verifharness/stats"
 )
+
+// FpSpentAndTrimmed is the known finding that a Qi output spent in exactly the block in which
+// it is due for trimming is removed from the UTXO commitment twice (C06). While it is listed as
+// known the generator never spends such an output, so that the search continues behind it.
+const FpSpentAndTrimmed = "C06/commitment/spent-and-trimmed-same-block"
+
+// AtTrimEdge reports whether spending u in the next block coincides with its trimming.
+func (a *Actor) AtTrimEdge(u UTXORec) bool {
+	h, ok := a.created[types.OutPoint{TxHash: u.TxHash, Index: u.Index}]
+	return ok && u.Entry.Denomination <= types.MaxTrimDenomination && u.Entry.Lock.Sign() == 0 &&
+		h+types.TrimDepths[u.Entry.Denomination] == a.ZoneNumber()+1
+}
+
 
 // Actor drives one Net along a branch: it owns the heads it mines on, remembers nonces per
 // branch and draws traffic and mining choices from rapid.
@@ -28,6 +43,9 @@ type Actor struct {
 
 	// contracts deployed by this actor (lockup forwarders)
 	Contracts []common.Address
+
+	// zone height at which each Qi-transaction output seen in this actor's blocks was created
+	created map[types.OutPoint]uint64
 }
 
 const (
@@ -36,7 +54,7 @@ const (
 )
 
 func NewActor(n *Net) *Actor {
-	return &Actor{Net: n, Heads: n.GenesisHeads(), Labels: map[string]int{}, quai: QuaiKeys(nQuaiKeys), qi: QiKeys(nQiKeys), qiNext: 4, Salt: 1}
+	return &Actor{Net: n, Heads: n.GenesisHeads(), Labels: map[string]int{}, quai: QuaiKeys(nQuaiKeys), qi: QiKeys(nQiKeys), qiNext: 4, Salt: 1, created: map[types.OutPoint]uint64{}}
 }
 
 // Fork returns an actor that continues from the same heads with independent bookkeeping.
@@ -49,6 +67,10 @@ func (a *Actor) Fork(salt uint64) *Actor {
 		b.Labels[k] = v
 	}
 	b.Contracts = append([]common.Address{}, a.Contracts...)
+	b.created = map[types.OutPoint]uint64{}
+	for k, v := range a.created {
+		b.created[k] = v
+	}
 	b.Salt = salt
 	return &b
 }
@@ -84,6 +106,9 @@ func (a *Actor) MineOne(o MineOpts) (*Block, error) {
 	if o.Salt == 0 {
 		o.Salt = a.Salt
 	}
+	if o.Coinbase.Equal(common.Address{}) {
+		o.Coinbase = DefaultQuaiCoinbase
+	}
 	parents := a.Heads
 	h, b, err := a.Net.Mine(a.Heads, o)
 	if err != nil {
@@ -105,6 +130,9 @@ func (a *Actor) classify(b *Block) {
 			a.label("blk_quai_tx")
 		case types.QiTxType:
 			a.label("blk_qi_tx")
+			for i := range tx.TxOut() {
+				a.created[types.OutPoint{TxHash: tx.Hash(), Index: uint16(i)}] = b.Zone().NumberU64(Zone)
+			}
 		case types.ExternalTxType:
 			a.label(fmt.Sprintf("blk_inbound_etx_type%d", tx.EtxType()))
 		}
@@ -200,7 +228,7 @@ func (a *Actor) spendable() (out []UTXORec, owner []*Key) {
 	for _, k := range a.qi {
 		byAddr[k.Addr.Bytes20()] = k
 	}
-	next := a.ZoneNumber() + 1
+	next := a.ZoneNumber() // the pool validates locks against the current head
 	for _, u := range ScanUTXOs(a.Net.Nodes[Zone].DB) {
 		if u.Entry == nil {
 			continue
@@ -210,6 +238,10 @@ func (a *Actor) spendable() (out []UTXORec, owner []*Key) {
 			continue
 		}
 		if u.Entry.Lock != nil && u.Entry.Lock.Uint64() > next {
+			continue
+		}
+		if a.AtTrimEdge(u) && stats.IsKnown(FpSpentAndTrimmed) {
+			stats.Excluded(FpSpentAndTrimmed)
 			continue
 		}
 		out = append(out, u)
@@ -297,6 +329,16 @@ func (a *Actor) submit(t *rapid.T, kind string) {
 			return
 		}
 		idx := rapid.IntRange(0, len(us)-1).Draw(t, "utxo")
+		// bias: an unlocked small-denomination output that is due for trimming in the very next block
+		if rapid.Bool().Draw(t, "preferTrimEdge") {
+			for i, c := range us {
+				if a.AtTrimEdge(c) {
+					idx = i
+					a.label("spend_at_trim_edge")
+					break
+				}
+			}
+		}
 		u, k := us[idx], owners[idx]
 		den := u.Entry.Denomination
 		if den < 3 { // cannot pay the 5-qit minimum fee out of < 50 qits sensibly
